@@ -11,6 +11,7 @@
 //! replay=<file written by ./check> or hex=<bytes> decoder=bgp|rtr|bfd
 //! codec=<name> cuts=a,b,c for a single input.
 mod drive;
+mod grow;
 mod mutate;
 mod seeds;
 
@@ -390,6 +391,57 @@ fn phase_bgp_systematic(ctx: &mut Ctx, sweep_rate: f64, sample: Option<u64>) {
         // enumerated mutation space can be complete, which the counters above say
         ctx.rep.exhaustive = Some(false);
     }
+}
+
+/// Mutation class "inner length beyond its legal range, every enclosing
+/// length grown consistently, real bytes inserted" (see grow.rs).  Small
+/// space: visited completely at every tier (a seeded sample under Miri).
+fn phase_bgp_grow(ctx: &mut Ctx, sample_ppm: u64) {
+    let bgp: Vec<usize> = (0..ctx.corpus.seeds.len()).filter(|i| ctx.corpus.seeds[*i].proto == Proto::Bgp).collect();
+    let order_seed = (ctx.rep.params.seed / 1000).wrapping_mul(0x9e37_79b9_7f4a_7c15);
+    let mut done = 0u64;
+    let mut space = 0u64;
+    let mut finished = true;
+    'seeds: for si in bgp {
+        let home = ctx.corpus.seeds[si].home;
+        let spec = ctx.corpus.specs[home].clone();
+        let nodes = grow::len_tree(&ctx.corpus.seeds[si].bytes, &ctx.layouts[si], &|f| spec.ap(f));
+        let n = grow::count(&nodes);
+        space += n as u64;
+        for k in 0..n {
+            if sample_ppm < 1_000_000 && mix((si as u64) << 32 ^ k as u64 ^ order_seed) % 1_000_000 >= sample_ppm {
+                continue;
+            }
+            if !ctx.mine() {
+                continue;
+            }
+            if done % 64 == 0 && !ctx.rep.in_budget() {
+                finished = false;
+                break 'seeds;
+            }
+            let Some((bytes, bucket, what)) = grow::nth(&ctx.corpus.seeds[si].bytes, &nodes, k) else {
+                ctx.rep.count("grow:not-representable");
+                continue;
+            };
+            ctx.rep.count("mut:grow-consistent");
+            ctx.rep.count(bucket);
+            let sname: &str = &ctx.corpus.seeds[si].name.clone();
+            let origin = || format!("seed {} + consistently grown {}", sname, what);
+            let h = mix((si as u64) << 32 ^ k as u64 ^ 0xC03);
+            let frags = ctx.frags_for(bytes.len(), h % 8 == 0);
+            ctx.judge_bgp(&bytes, home, &origin, &frags);
+            if h % 4 == 1 {
+                let alt = alt_codec(ctx, si, h);
+                if alt != home {
+                    ctx.judge_bgp(&bytes, alt, &origin, &[]);
+                }
+            }
+            done += 1;
+        }
+    }
+    ctx.rep.max("space:bgp-grow-total", space);
+    ctx.rep.count_n("inputs:bgp-grow", done);
+    ctx.rep.count(if finished { "grow:finished" } else { "grow:cut-by-budget" });
 }
 
 fn pick_bgp_seed(ctx: &mut Ctx) -> usize {
@@ -1203,6 +1255,10 @@ fn main() {
             let rate = if thorough { 1.0 } else { 0.1 } * params.scale.min(1.0);
             phase_bgp_systematic(&mut ctx, rate, None);
         }
+    }
+    if has("bgp-systematic") {
+        let ppm = if tiny { ((params.scale * 20.0).min(1.0) * 1_000_000.0) as u64 } else { 1_000_000 };
+        phase_bgp_grow(&mut ctx, ppm.max(1));
     }
     lap("systematic");
     if has("bgp-random") {
